@@ -179,6 +179,15 @@ Non-trivial: payload ≥ 12 bytes; distinct = distinct query lines."
             if !matches!(&rd, Ok(Ok(m2)) if *m2 == m) {
                 w.fail(l4, "codec-roundtrip", "read_message(write_message(m)) != m");
             }
+            // the same bytes through a reader that delivers them in short pieces (a socket / pipe): same value, same rest
+            let kk = [1usize, 3, 7, 1448][rng.below(4) as usize];
+            let mut ch = Chunked { data: &stream, pos: 0, k: kk };
+            let rd2 = guarded(|| Codec::new().read_message(&mut ch));
+            let impr2 = match &rd2 { Ok(Ok(m2)) => format!("{} rest={} alloc={}", desc_msg(m2), stream.len() - ch.pos, enc.len()), Ok(Err(_)) => "ERR".into(), Err(()) => "PANIC".into() };
+            w.count("readmsg-short-reads");
+            if impr2 != impr {
+                w.fail(l4, "codec-short-reads", &format!("read_message through a reader returning at most {} bytes per read gives `{}`, through a cursor `{}`", kk, &impr2[..impr2.len().min(80)], &impr[..impr.len().min(80)]));
+            }
             // mutated frame through the codec reader
             if i % 3 == 0 {
                 let mm = mutate(&mut rng, &framed);
@@ -289,5 +298,16 @@ Non-trivial: payload ≥ 12 bytes; distinct = distinct query lines."
                 }
             }
         }
+    }
+}
+
+/// a reader that returns at most `k` bytes per `read` call
+struct Chunked<'a> { data: &'a [u8], pos: usize, k: usize }
+impl<'a> std::io::Read for Chunked<'a> {
+    fn read(&mut self, buf: &mut [u8]) -> std::io::Result<usize> {
+        let n = buf.len().min(self.k).min(self.data.len() - self.pos);
+        buf[..n].copy_from_slice(&self.data[self.pos..self.pos + n]);
+        self.pos += n;
+        Ok(n)
     }
 }
